@@ -303,6 +303,18 @@ class Check:
             cmd += ["-replay", self.replay]
         rc, out = run(cmd, cwd=self.workdir, env=GOENV, timeout=6000)
         if rc != 0:
+            crumb = os.path.join(outdir, "current_case.json")
+            if os.path.exists(crumb):
+                # the process that ran the gateway died (a panic in one of the gateway's own goroutines
+                # cannot be recovered by the harness): the case it was running is the failing input
+                try:
+                    cur = json.load(open(crumb))
+                    case = {"id": -1, "kind": cur.get("kind", "case"), "input": cur.get("input"),
+                            "observed": {"process_died": out[-1500:]}, "nontrivial": True}
+                    self.violations.append((case, "the process running the gateway died while executing this case"))
+                    return None
+                except Exception:
+                    pass
             self.broken.append(("harness-run", out[-3000:]))
             return None
         doc = json.load(open(os.path.join(outdir, "cases.json")))
